@@ -14,14 +14,16 @@ Fixpoint no_start (pat a rest : string) : bool :=
   | String c a' => negb (starts_with pat (String c a' ++ rest)) && no_start pat a' rest
   end.
 
-(** code text free of scanner markers: no double quote, no "//", no "/*", not an #include line *)
+(** code text free of scanner markers: no double quote, no "//", no "/*", not an #include line
+    (the scanner looks for "#include" after the leading white space) *)
 Definition no_markers (pre : string) : Prop :=
   contains """" pre = false /\ contains "//" pre = false /\ contains "/*" pre = false
-  /\ starts_with "#include" pre = false.
+  /\ starts_with "#include" (trim_start pre) = false.
 
 (** a literal body in which a backslash always takes the next character with it, no quote stands
-    unescaped and no backslash is left alone at the end.  Weaker than [c_decode s <> None]: the
-    escape character is not constrained (octal, hex ... escapes are allowed). *)
+    unescaped and no backslash is left alone at the end: the bodies of C.  Weaker than
+    [c_decode s <> None]: the escape character is not constrained (octal, hex ... escapes are
+    allowed). *)
 Fixpoint pair_wf (s : string) : bool :=
   match s with
   | EmptyString => true
@@ -32,16 +34,41 @@ Fixpoint pair_wf (s : string) : bool :=
       else pair_wf r
   end.
 
-(** backslash backslash quote *)
-Definition bs_bs_quote : string := "\\""".
+(** the bodies whose closing quote [find_close] finds: since the scanner counts the backslashes
+    in front of a quote (parity rule, C's rule), all the pair-wise well-formed ones *)
+Definition scannableb (body : string) : bool := pair_wf body.
 
-(** the bodies whose closing quote [find_close] finds: pair-wise well formed, and no quote is
-    preceded by two backslashes (an escaped backslash followed by an escaped quote) *)
-Definition scannableb (body : string) : bool :=
-  pair_wf body && negb (contains bs_bs_quote body).
+Definition scannable (body : string) : Prop := pair_wf body = true.
 
-Definition scannable (body : string) : Prop :=
-  pair_wf body = true /\ contains bs_bs_quote body = false.
+(** ** the parity rule *)
+
+(** [escaped_parity odd s]: parity of the run of backslashes that ends [odd-run ++ s], where
+    [odd] is the parity of the run that precedes [s] (true = odd).  [escaped_parity false s] is
+    true exactly when [s] ends in an odd number of backslashes: a quote that follows is escaped *)
+Fixpoint escaped_parity (odd : bool) (s : string) : bool :=
+  match s with
+  | EmptyString => odd
+  | String a r => escaped_parity (if Ascii.eqb a "\" then negb odd else false) r
+  end.
+
+(** [body] ends just before the first quote preceded by an even number of backslashes: an even
+    number of backslashes ends it, and every quote inside it has an odd number in front *)
+Definition closes_body (body : string) : Prop :=
+  escaped_parity false body = false /\
+  forall l r, body = l ++ """" ++ r -> escaped_parity false l = true.
+
+(** the same as a function, left to right: cut at the first quote preceded by an even number
+    of backslashes ([odd]: parity of the run of backslashes just read) *)
+Fixpoint first_close (odd : bool) (s : string) : option (string * string) :=
+  match s with
+  | EmptyString => None
+  | String a r =>
+      if Ascii.eqb a """" && negb odd then Some (EmptyString, r)
+      else match first_close (if Ascii.eqb a "\" then negb odd else false) r with
+           | Some (b, t) => Some (String a b, t)
+           | None => None
+           end
+  end.
 
 (** what the scanner hands to the line processor, whichever way the scan of the line ended: the
     uncommented text, the flag [insert_it], the new scanner state.  (When the scan ended at an
